@@ -73,7 +73,7 @@ func staticSetup() *staticEnv {
 		e.markers[strings.TrimPrefix(rel, "root/")] = m
 	}
 	for rel, m := range map[string]string{"secret.txt": "SECRET-TXT", "secret.css": "SECRET-CSS", "root-internal/key.css": "SECRET-KEY", "pub/secret.txt": "SECRET-PUB-TXT",
-		"pub/secret.css": "SECRET-PUB-CSS"} {
+		"pub/secret.css": "SECRET-PUB-CSS", "index.html": "SECRET-INDEX-BESIDE-THE-ROOT", "pub/index.html": "SECRET-PUB-INDEX"} {
 		write(rel, m)
 		e.outside = append(e.outside, m)
 	}
@@ -89,6 +89,8 @@ func staticSetup() *staticEnv {
 		fatal("%v", err)
 	}
 	mk("dir-relative", func(r *rux.Router) { r.StaticDir("/assets", "root") })
+	// a relative root that starts with "../" (the same directory, reached through the parent)
+	mk("dir-dotdot", func(r *rux.Router) { r.StaticDir("/assets", "../"+filepath.Base(tmp)+"/root") })
 	mk("css-relative", func(r *rux.Router) { r.StaticFiles("/assets", "./root", "css") })
 	// a file system of the application's own that joins the name it is given onto its root: it relies on being handed the
 	// cleaned, rooted names net/http's file server produces
@@ -114,7 +116,7 @@ type naiveFS struct{ root string }
 func (n naiveFS) Open(name string) (http.File, error) { return os.Open(filepath.Join(n.root, name)) }
 
 // staticTwin: handlers that must answer exactly like another one (same files, configured in another way)
-var staticTwin = map[string]string{"dir-relative": "dir", "css-relative": "css", "css-two-roots": "css"}
+var staticTwin = map[string]string{"dir-relative": "dir", "dir-dotdot": "dir", "css-relative": "css", "css-two-roots": "css"}
 
 func staticReplay(s *Summary, raw json.RawMessage) {
 	var c staticCase
